@@ -180,8 +180,10 @@ func newNet(in *Input) *netsim.Sim {
 		if strings.HasSuffix(route, "*") {
 			continue
 		}
-		b := body
-		net.Handle(route, func(*netsim.Request) netsim.Reply { return netsim.Reply{Body: b, Class: "scripted"} })
+		b, l := body, in.Lengths[route]
+		net.Handle(route, func(*netsim.Request) netsim.Reply {
+			return netsim.Reply{Body: b, Class: "scripted", ContentLength: l}
+		})
 	}
 	net.Default = func(r *netsim.Request) netsim.Reply {
 		if _, ok := pki.ParseOCSPRequest(r.Body); ok {
